@@ -963,3 +963,108 @@ func init() {
 		return res
 	}
 }
+
+// ---------------------------------------------------------------------------------------------
+// C18: a schema that carries its own `id` opens a scope; what a fragment-only `$ref` below it designates must not depend on
+// whether the supplied cache already holds the root document (nor on any other cache state)
+
+type scopedIDInput struct {
+	Where string `json:"where"` // the keyword under which the scoped schema sits
+}
+
+func checkScopedID(in scopedIDInput) (msg string, obs interface{}) {
+	defer func() {
+		if r := recover(); r != nil {
+			msg = fmt.Sprintf("panic: %v", r)
+		}
+	}()
+	const rootURL = "file:///sc/root.json"
+	docs := map[string]string{
+		rootURL:                         `{"swagger":"2.0","info":{"title":"t","version":"1"},"paths":{},"definitions":{"label":{"type":"string","description":"label of the root"},"other":{"type":"boolean"}}}`,
+		"file:///sc/other.json":         `{"definitions":{"x":{"type":"number"}}}`,
+		"http://scoped.example/in.json": `{"definitions":{"label":{"type":"integer","description":"label served at the id"}}}`,
+	}
+	scoped := `{"id":"http://scoped.example/in.json","type":"object","definitions":{"label":{"type":"integer","description":"label of the scope"}},"properties":{"label":{"$ref":"#/definitions/label"}}}`
+	element := `{"type":"object","properties":{"first":{"$ref":"#/definitions/other"},"away":{"$ref":"other.json#/definitions/x"}},"` + in.Where + `":` + map[string]string{
+		"allOf": `[` + scoped + `]`, "items": scoped, "additionalProperties": scoped, "not": scoped}[in.Where] + `}`
+	loader := func(u string) (json.RawMessage, error) {
+		if d, ok := docs[u]; ok {
+			return json.RawMessage(d), nil
+		}
+		return nil, fmt.Errorf("no such document %s", u)
+	}
+	run := func(cache spec.ResolutionCache) string {
+		s := new(spec.Schema)
+		if err := json.Unmarshal([]byte(element), s); err != nil {
+			return "decode: " + err.Error()
+		}
+		var err error
+		if cache == nil {
+			err = spec.ExpandSchemaWithBasePath(s, nil, &spec.ExpandOptions{RelativeBase: rootURL, PathLoader: loader})
+		} else {
+			err = spec.ExpandSchemaWithBasePath(s, cache, &spec.ExpandOptions{RelativeBase: rootURL, PathLoader: loader})
+		}
+		if err != nil {
+			return "error: " + err.Error()
+		}
+		b, _ := json.Marshal(s)
+		return string(b)
+	}
+	preload := func(urls ...string) spec.ResolutionCache {
+		c := &mapCache{m: map[string]interface{}{}}
+		for _, u := range urls {
+			var v interface{}
+			_ = json.Unmarshal([]byte(docs[u]), &v)
+			c.Set(u, v)
+		}
+		return c
+	}
+	base := run(nil)
+	states := map[string]spec.ResolutionCache{
+		"a fresh cache":                          &mapCache{m: map[string]interface{}{}},
+		"a cache pre-loaded with the root":       preload(rootURL),
+		"a cache pre-loaded with every document": preload(rootURL, "file:///sc/other.json", "http://scoped.example/in.json"),
+	}
+	reused := &mapCache{m: map[string]interface{}{}}
+	run(reused)
+	states["a cache reused from an earlier expansion"] = reused
+	for _, name := range []string{"a fresh cache", "a cache pre-loaded with the root", "a cache pre-loaded with every document", "a cache reused from an earlier expansion"} {
+		if got := run(states[name]); got != base {
+			return name + " changes the expansion of an element with a scoped (`id`) sub-schema", map[string]string{"with": got, "without": base}
+		}
+	}
+	return
+}
+
+func oracleC18Scoped(r *rng, n int, tier string) *oracleResult {
+	exQuiet()
+	res := &oracleResult{Stats: map[string]int{}}
+	for _, w := range []string{"allOf", "items", "additionalProperties", "not"} {
+		in := scopedIDInput{Where: w}
+		res.Evaluations += 5
+		res.Distinct++
+		if msg, obs := checkScopedID(in); msg != "" {
+			res.Stats["fail:cache-changes-result:scoped-id"]++
+			if len(res.Failures) < 1 {
+				res.Failures = append(res.Failures, failure{Property: "C18", What: msg, Shape: "cache-changes-result:scoped-id", Input: in, Observed: obs})
+			}
+		}
+	}
+	res.Samples = []interface{}{scopedIDInput{Where: "allOf"}}
+	return res
+}
+
+func init() {
+	oracles["C18scoped"] = oracleC18Scoped
+	replays["C18scoped"] = func(input json.RawMessage) *oracleResult {
+		var in scopedIDInput
+		res := &oracleResult{Stats: map[string]int{}, Evaluations: 1}
+		if json.Unmarshal(input, &in) != nil {
+			return res
+		}
+		if msg, obs := checkScopedID(in); msg != "" {
+			res.Failures = append(res.Failures, failure{Property: "C18", What: msg, Shape: "cache-changes-result:scoped-id", Input: in, Observed: obs})
+		}
+		return res
+	}
+}
